@@ -28,6 +28,7 @@ def run(ctx: Ctx):
     identity_other(ctx)
     slots(ctx)
     slot_independence(ctx)
+    fresh_partition_dimension(ctx)
     late_translations(ctx)
     element_id(ctx)
     unknown_refs(ctx)
@@ -360,6 +361,31 @@ def slot_independence(ctx: Ctx, rule: str = "slots.independent"):
     ctx.count("order slot stores", n)
     if n < 3:
         ctx.undecided(rule, f"{DIM}::_ElementIdShim", f"{n} of 3 slot stores located", "stores of element_ids / top / bottom")
+
+
+def fresh_partition_dimension(ctx: Ctx):
+    """The dimension a partition translates opposing-element ids with is built by `Dimension.apply_transforms`, from the
+    UNSHIMMED dimension dict and the dimension's FINAL type.  The cube-level object is not a substitute: `Dimensions.from_dicts`
+    promotes CA_SUBVAR to MR_SUBVAR after members of the dimension (hence its cached id shim) may already have been read, so
+    that object can carry a shim of the stale type (no MR-insertion special case).  Every path of `apply_transforms` returns a
+    new Dimension; a path returning `self` is the violation."""
+    dc = ctx.repo.cls(DIM, "Dimension")
+    m = ctx.repo.lookup(dc, "apply_transforms")
+    where = f"{DIM}::Dimension.apply_transforms"
+    if m is None:
+        ctx.undecided("late-translation.fresh-dimension", where, "member not found", "")
+        return
+    body = SUMMARIZER.summarize(m.node)
+    leaves = [l for _g, l in strip_ifexp_paths(body)]
+    shared = [u(l) for l in leaves if u(l) in ("self",) or (isinstance(l, ast.Attribute) and isinstance(l.value, ast.Name) and l.value.id == "self")]
+    fresh = [l for l in leaves if isinstance(l, ast.Call) and u(l.func) in ("Dimension", "type(self)", "self.__class__", "cls")]
+    verdict = False if shared else (True if fresh and len(fresh) == len(leaves) else None)
+    ctx.ob("late-translation.fresh-dimension", where, shared or [u(l)[:90] for l in leaves][:2], "Dimension(self._unshimmed_dimension_dict, self.dimension_type, <transforms>) on every path", verdict,
+           "the shared cube-level dimension may hold an id shim cached before its type was promoted to MR_SUBVAR: ids of an MR with inserted items written as numeric strings then resolve to ANOTHER item in sort-by-opposing-element transforms")
+    for l in fresh:
+        args = [u(a) for a in l.args]
+        ok = len(args) >= 2 and args[0] == "self._unshimmed_dimension_dict" and args[1] == "self.dimension_type"
+        ctx.ob("late-translation.fresh-dimension", where + " [arguments]", args[:2], "['self._unshimmed_dimension_dict', 'self.dimension_type']", True if ok else None, "re-shimmed from the raw dict with the final type")
 
 
 def late_translations(ctx: Ctx):
